@@ -399,21 +399,21 @@ func (oc *obligCtx) sliceOb(in ssa.Instruction, x *ssa.Slice, add addFn) {
 				ok = true
 			}
 		}
-		if !ok && !f.leLen(x.High, x.X) {
+		if !ok && !f.leLen(x.High, x.X) && !linLeq(f, linVal(x.High), linLen(x.X)) {
 			fails = append(fails, "high ≤ len")
 		}
 	}
 	// lower bound non-negative
-	if x.Low != nil && !oc.nonNeg(f, x.Low) {
+	if x.Low != nil && !oc.nonNeg(f, x.Low) && !linLeq(f, linConst(0), linVal(x.Low)) {
 		fails = append(fails, "0 ≤ low")
 	}
-	if x.Low == nil && x.High != nil && !oc.nonNeg(f, x.High) {
+	if x.Low == nil && x.High != nil && !oc.nonNeg(f, x.High) && !linLeq(f, linConst(0), linVal(x.High)) {
 		fails = append(fails, "0 ≤ high")
 	}
 	// low ≤ high
 	if x.Low != nil {
 		if x.High == nil {
-			ok := f.leLen(x.Low, x.X)
+			ok := f.leLen(x.Low, x.X) || linLeq(f, linVal(x.Low), linLen(x.X))
 			if n, isArr := isArrayLike(x.X.Type()); isArr && !ok {
 				if k, isC := constInt(x.Low); isC && k <= n {
 					ok = true
@@ -422,7 +422,7 @@ func (oc *obligCtx) sliceOb(in ssa.Instruction, x *ssa.Slice, add addFn) {
 			if !ok {
 				fails = append(fails, "low ≤ len")
 			}
-		} else if !leqValues(f, oc, x.Low, x.High) {
+		} else if !leqValues(f, oc, x.Low, x.High) && !linLeq(f, linVal(x.Low), linVal(x.High)) {
 			fails = append(fails, "low ≤ high")
 		}
 	}
